@@ -25,6 +25,7 @@ package reactor
 // ReceiveInsert: takes a token, then tracks the seed, then queues it.
 //@ func ReceiveInsert
 //@   property C12
+//@   attr cancellable @C03 tokenPool:freezeCtx
 //@   replay reactorInsert
 //@   concurrent G
 //@   local myIns int = 0
